@@ -36,7 +36,7 @@ META = dict(
     need=["cl_cov_compared", "re_cov_compared", "cl_mirror_bitwise", "re_mirror_bitwise",
           "cl_pe_zero_checked", "re_pe_zero_checked", "cl_geovi_unchanged", "re_nonlinear_unchanged",
           "cl_sample_mean", "re_sample_mean", "smoke_chi2"],
-    quick=dict(cases=340, workers=8, budget_s=75),
+    quick=dict(cases=300, workers=8, budget_s=75),
     thorough=dict(cases=10000, workers=16, budget_s=780),
     design_ref="DESIGN.md §5 C18",
     level_text=("exact observation of the residual map of the real samplers on generated small models; "
@@ -84,7 +84,23 @@ def case(ck, i):
     # the case family is drawn (not derived from i) so that the round-robin dealing of indices
     # over workers does not put all the expensive JAX cases on the same worker
     u = rng.uniform()
-    if u < 0.13:
+    # fixed prefix: whatever the machine load, every monitor in META["need"] sees events in the
+    # first round of every worker layout
+    forced = {0: ("re", dict(linear=True, nonlin=True, pe=True, route="ovi_draw")),
+              1: ("cl", dict(linear=True, geo=True, pe=True, mirror=True, route="kl")),
+              2: ("re", dict(linear=False, route="ovi_lin", pe=True)),
+              3: ("smoke_re", None), 4: ("smoke_cl", None),
+              5: ("cl", dict(route="driver", geo=False)),
+              6: ("re", dict(route="dlr")),
+              7: ("cl", dict(route="kl", geo=False, pe=True, mirror=True))}.get(i)
+    if forced is not None:
+        fam, force = forced
+        if fam == "re":
+            return case_re(ck, rng, force)
+        if fam == "cl":
+            return case_cl(ck, rng, force)
+        return smoke(ck, rng, fam[-2:])
+    if u < 0.12:
         return case_re(ck, rng)
     if u < 0.15:
         return smoke(ck, rng, "re")
@@ -96,24 +112,28 @@ def case(ck, i):
 # =====================================================================================
 # classic
 # =====================================================================================
-def case_cl(ck, rng):
+def case_cl(ck, rng, force=None):
+    force = force or {}
     ift = ck.state["ift"]
     sc = vh.get_clscript(ck, ift)
-    linear = bool(rng.integers(0, 2))
-    geo = bool(linear and rng.integers(0, 3) == 0)
+    linear = force.get("linear", bool(rng.integers(0, 2)))
+    geo = force.get("geo", bool(linear and rng.integers(0, 3) == 0)) and linear
     # classic geoVI needs likelihood.get_transformation() with a sampling dtype, which NIFTy's
     # SandwichOperator (our dense inverse covariance) does not carry -> diagonal noise there
-    m = vh.gen_model(rng, linear=linear, noise_kinds=("diag",) if geo else ("diag", "diag", "dense"))
+    m = vh.gen_model(rng, linear=linear, noise_kinds=("diag",) if geo else ("diag", "diag", "dense"),
+                     nkeys=2 if force.get("pe") else None)
     mir = vh.Mirror(m)
     b = vh.build_cl(ift, m, rg=bool(rng.integers(0, 2)))
     dom = b["dom"]
     x0 = 0.7 * rng.standard_normal(mir.n)
     pos = vh.cl_field(ift, dom, mir, x0)
     keys = mir.keys
-    route = "driver" if rng.integers(0, 4) == 0 else "kl"
-    mirror = True if route == "driver" else bool(rng.integers(0, 2))
+    route = force.get("route", "driver" if rng.integers(0, 4) == 0 else "kl")
+    mirror = True if route == "driver" else force.get("mirror", bool(rng.integers(0, 2)))
     ns = int(rng.integers(1, 5))
     pe = _subset(rng, keys) if len(keys) > 1 else []
+    if force.get("pe"):
+        pe = [keys[int(rng.integers(0, len(keys)))]]
     const = _subset(rng, keys, p_empty=0.6) if len(keys) > 1 else []
     napprox = 0 if route == "driver" else int(rng.choice([0, 0, 3]))
     seed = int(rng.integers(0, 2**31))
@@ -238,6 +258,7 @@ CGKW = dict(resnorm=1e-11, miniter=0, maxiter=200)
 
 
 def _re_setup(ck, rng, linear=None, **kw):
+    kw = {k: v for k, v in kw.items() if v is not None}
     jax, jnp, jft, rs = vh.get_jax(ck)
     if linear is None:
         linear = bool(rng.integers(0, 2))
@@ -249,12 +270,16 @@ def _re_setup(ck, rng, linear=None, **kw):
     return jax, jnp, jft, rs, m, mir, r["lh"], x0, pos
 
 
-def case_re(ck, rng):
-    jax, jnp, jft, rs, m, mir, lh, x0, pos = _re_setup(ck, rng)
+def case_re(ck, rng, force=None):
+    force = force or {}
+    jax, jnp, jft, rs, m, mir, lh, x0, pos = _re_setup(ck, rng, linear=force.get("linear"),
+                                                       nkeys=2 if force.get("pe") else None)
     linear = m["linear"]
     keys = mir.keys
-    route = ["dlr", "ovi_lin", "ovi_lin", "ovi_draw"][int(rng.integers(0, 4))]
+    route = force.get("route", ["dlr", "ovi_lin", "ovi_lin", "ovi_draw"][int(rng.integers(0, 4))])
     pe = _subset(rng, keys) if len(keys) > 1 else []
+    if force.get("pe"):
+        pe = [keys[int(rng.integers(0, len(keys)))]]
     if route == "dlr":
         rmap, cgname, lmj = "python", "cg", False
     else:
@@ -262,7 +287,7 @@ def case_re(ck, rng):
                              ("smap", "static_cg", True), ("lmap", "static_cg", True)][
             int(rng.integers(0, 4))]
     cg = getattr(jft.conjugate_gradient, cgname)
-    nonlin = bool(linear and route == "ovi_draw" and rmap == "lmap" and cgname == "cg")
+    nonlin = bool(linear and (force.get("nonlin") or rng.integers(0, 2) == 0))
     kseed = int(rng.integers(0, 2**31))
     opt = dict(api="re", route=route, rmap=rmap, cg=cgname, pe=pe, nonlin=nonlin, kseed=kseed)
     ck.note(dict(model=vh.model_brief(m), opt=opt),
@@ -369,7 +394,7 @@ def case_re(ck, rng):
         try:
             rs.set_table(table2)
             ovi = jft.OptimizeVI(lh, 1, residual_map="lmap", linear_minimizer_jit=False)
-            dl = dict(cg=cg, cg_kwargs=dict(CGKW))
+            dl = dict(cg=jft.conjugate_gradient.cg, cg_kwargs=dict(CGKW))
             nlk = dict(minimize_kwargs=dict(xtol=1e-10, maxiter=5,
                                             cg_kwargs=dict(miniter=0, maxiter=100)))
             lin, st1 = ovi.draw_samples(jft.Samples(pos=pos, samples=None, keys=None), key=key2,
